@@ -332,10 +332,20 @@ func c44(r *core.Report, p *core.Prog, thorough bool) {
 	r.Floor("C44.guarded-by", "structs with a mutex", len(targets), 5)
 	nGuarded := 0
 	guardedTable := map[string]string{}
+	seenConfirmed := map[string]bool{}
 	for _, t := range targets {
 		accs := w.fieldAccesses(t.st)
 		gb := w.GuardedBy(t.st, accs)
 		tname := t.named.Obj().Pkg().Name() + "." + t.named.Obj().Name()
+		// confirmed pairs (read and frozen): an added unguarded writer must be reported, not
+		// silently drop the field from the inferred table
+		for i := 0; i < t.st.NumFields(); i++ {
+			f := t.st.Field(i)
+			if mu, ok := confirmedGuards[tname+"."+f.Name()]; ok {
+				gb[f] = mu
+				seenConfirmed[tname+"."+f.Name()] = true
+			}
+		}
 		for f, mu := range gb {
 			nGuarded++
 			guardedTable[tname+"."+f.Name()] = mu
@@ -466,6 +476,11 @@ func c44(r *core.Report, p *core.Prog, thorough bool) {
 		}
 	}
 	r.Info["guarded_fields"] = guardedTable
+	for k := range confirmedGuards {
+		if !seenConfirmed[k] && (thorough || confirmedInQuick(k)) {
+			r.Unresolved("C44.guarded-by", "confirmed guarded field "+k)
+		}
+	}
 	r.Floor("C44.guarded-by", "guarded fields inferred", nGuarded, 6)
 	// ---- go capture
 	races := w.GoCaptureRaces()
@@ -547,4 +562,41 @@ func accessKind(a FieldAccess) string {
 		return "write"
 	}
 	return "read"
+}
+
+// confirmedGuards: field → mutex pairs inferred on the reviewed tree and confirmed by
+// reading (every non-construction write holds the mutex of the same object). Frozen so
+// that a new unguarded access is a finding instead of a silent change of the inference.
+var confirmedGuards = map[string]string{
+	"block.Block.TxnsMap":                       "mutexTxns",
+	"block.Block.VerificationTickets":           "ticketsMutex",
+	"block.Block.isFinalised":                   "ticketsMutex",
+	"block.Block.isNotarized":                   "ticketsMutex",
+	"block.Block.stateStatus":                   "stateStatusMutex",
+	"block.Block.uniqueBlockExtensions":         "uniqueBlockExtMutex",
+	"miner.Round.generationCancelf":             "cancelGuard",
+	"miner.Round.ownVerificationTicket":         "roundGuard",
+	"miner.Round.verificationCancelf":           "cancelGuard",
+	"miner.Round.verificationTickets":           "roundGuard",
+	"miner.Round.vrfShare":                      "roundGuard",
+	"miner.Round.vrfSharesCache":                "roundGuard",
+	"miner.vrfSharesCache.vrfShares":            "mutex",
+	"round.Round.BlockHash":                     "mutex",
+	"round.Round.VRFOutput":                     "mutex",
+	"round.Round.finalizingState":               "mutex",
+	"round.Round.minerPerm":                     "mutex",
+	"round.Round.notarizedBlocks":               "mutex",
+	"round.Round.proposedBlocks":                "mutex",
+	"round.Round.shares":                        "mutex",
+	"round.roundStartingStorage.items":          "mu",
+	"round.roundStartingStorage.max":            "mu",
+	"round.roundStartingStorage.rounds":         "mu",
+	"round.timeoutCounter.count":                "mutex",
+	"round.timeoutCounter.perm":                 "mutex",
+	"round.timeoutCounter.prrs":                 "mutex",
+	"round.timeoutCounter.votes":                "mutex",
+}
+
+func confirmedInQuick(k string) bool {
+	return strings.HasPrefix(k, "block.") || strings.HasPrefix(k, "round.") || strings.HasPrefix(k, "miner.")
 }
